@@ -89,8 +89,8 @@ func (c *Commitment) Bytes() []byte {
 		return nil
 	}
 
-	c1Bytes := sliceutils.Map(c.C1, func(c1 *paillier.Ciphertext) []byte { return c1.Bytes() })
-	c2Bytes := sliceutils.Map(c.C2, func(c2 *paillier.Ciphertext) []byte { return c2.Bytes() })
+	c1Bytes := sliceutils.Map(c.C1, bytesOrNil[*paillier.Ciphertext])
+	c2Bytes := sliceutils.Map(c.C2, bytesOrNil[*paillier.Ciphertext])
 
 	out := []byte{}
 	out = sliceutils.AppendLengthPrefixedSlices(out, c1Bytes...)
@@ -127,32 +127,32 @@ func (r *Response) Bytes() []byte {
 	out = binary.LittleEndian.AppendUint64(out, uint64(len(r.W1)))
 	for _, k := range slices.Sorted(maps.Keys(r.W1)) {
 		out = binary.LittleEndian.AppendUint64(out, uint64(k))
-		out = sliceutils.AppendLengthPrefixed(out, r.W1[k].Bytes())
+		out = sliceutils.AppendLengthPrefixed(out, bytesOrNil(r.W1[k]))
 	}
 	out = binary.LittleEndian.AppendUint64(out, uint64(len(r.R1)))
 	for _, k := range slices.Sorted(maps.Keys(r.R1)) {
 		out = binary.LittleEndian.AppendUint64(out, uint64(k))
-		out = sliceutils.AppendLengthPrefixed(out, r.R1[k].Bytes())
+		out = sliceutils.AppendLengthPrefixed(out, bytesOrNil(r.R1[k]))
 	}
 	out = binary.LittleEndian.AppendUint64(out, uint64(len(r.W2)))
 	for _, k := range slices.Sorted(maps.Keys(r.W2)) {
 		out = binary.LittleEndian.AppendUint64(out, uint64(k))
-		out = sliceutils.AppendLengthPrefixed(out, r.W2[k].Bytes())
+		out = sliceutils.AppendLengthPrefixed(out, bytesOrNil(r.W2[k]))
 	}
 	out = binary.LittleEndian.AppendUint64(out, uint64(len(r.R2)))
 	for _, k := range slices.Sorted(maps.Keys(r.R2)) {
 		out = binary.LittleEndian.AppendUint64(out, uint64(k))
-		out = sliceutils.AppendLengthPrefixed(out, r.R2[k].Bytes())
+		out = sliceutils.AppendLengthPrefixed(out, bytesOrNil(r.R2[k]))
 	}
 	out = binary.LittleEndian.AppendUint64(out, uint64(len(r.Wj)))
 	for _, k := range slices.Sorted(maps.Keys(r.Wj)) {
 		out = binary.LittleEndian.AppendUint64(out, uint64(k))
-		out = sliceutils.AppendLengthPrefixed(out, r.Wj[k].Bytes())
+		out = sliceutils.AppendLengthPrefixed(out, bytesOrNil(r.Wj[k]))
 	}
 	out = binary.LittleEndian.AppendUint64(out, uint64(len(r.Rj)))
 	for _, k := range slices.Sorted(maps.Keys(r.Rj)) {
 		out = binary.LittleEndian.AppendUint64(out, uint64(k))
-		out = sliceutils.AppendLengthPrefixed(out, r.Rj[k].Bytes())
+		out = sliceutils.AppendLengthPrefixed(out, bytesOrNil(r.Rj[k]))
 	}
 	out = binary.LittleEndian.AppendUint64(out, uint64(len(r.J)))
 	for _, k := range slices.Sorted(maps.Keys(r.J)) {
@@ -353,6 +353,9 @@ func (p *Protocol[EK]) Verify(statement *Statement, commitment *Commitment, chal
 	if len(commitment.C1) != int(p.t) || len(commitment.C2) != int(p.t) {
 		return proofs.ErrFailed.WithMessage("inconsistent input")
 	}
+	if slices.Contains(commitment.C1, nil) || slices.Contains(commitment.C2, nil) {
+		return proofs.ErrInvalidArgument.WithMessage("commitment contains a nil ciphertext")
+	}
 
 	l1 := len(response.W1)
 	l2 := len(response.Wj)
@@ -373,7 +376,7 @@ func (p *Protocol[EK]) Verify(statement *Statement, commitment *Commitment, chal
 			w2i, okw2i := response.W2[i]
 			r1i, okr1i := response.R1[i]
 			r2i, okr2i := response.R2[i]
-			if !okw1i || !okw2i || !okr1i || !okr2i {
+			if !okw1i || !okw2i || !okr1i || !okr2i || w1i == nil || w2i == nil {
 				return proofs.ErrVerificationFailed.WithMessage("verification failed")
 			}
 
@@ -394,7 +397,7 @@ func (p *Protocol[EK]) Verify(statement *Statement, commitment *Commitment, chal
 			wi, okwi := response.Wj[i]
 			ri, okri := response.Rj[i]
 			ji, okji := response.J[i]
-			if !okwi || !okri || !okji {
+			if !okwi || !okri || !okji || wi == nil {
 				return proofs.ErrVerificationFailed.WithMessage("verification failed")
 			}
 
@@ -610,6 +613,20 @@ func (p *Protocol[EK]) GetChallengeBytesLength() int {
 // SoundnessError returns the protocol soundness error.
 func (p *Protocol[EK]) SoundnessError() uint {
 	return p.t
+}
+
+// bytesOrNil encodes an entry of a decoded commitment or response. The compilers bind these messages to the
+// transcript (Bytes) before Verify gets to reject a nil entry, i.e. a CBOR null in place of a ciphertext,
+// plaintext or nonce.
+func bytesOrNil[T interface {
+	comparable
+	Bytes() []byte
+}](v T) []byte {
+	var null T
+	if v == null {
+		return nil
+	}
+	return v.Bytes()
 }
 
 func isInRange(lowInclusive, highExclusive *num.Nat, v *paillier.Plaintext) bool {
